@@ -52,6 +52,12 @@ type Plan struct {
 	Groups     []Group
 	Timeouts   int  // forced worker timeouts planned (each costs >= 2 s)
 	NoHonest   bool // the scenario ends with / consists of calls no peer answers correctly
+	// Skew: the chain's timestamps lie 93-100 minutes ahead of the real
+	// clock (valid at header sync), and after the sync five more peers
+	// connect whose version timestamps are 69 minutes behind, so that the
+	// client's peer-adjusted clock moves back and the headers it already
+	// accepted look "too new" to the block sanity check during GetBlock.
+	Skew bool `json:",omitempty"`
 }
 
 func mod(a, n int) int { return ((a % n) + n) % n }
@@ -103,6 +109,9 @@ func MakePlan(seed int64, k int) Plan {
 	p.Preset = k % chaingen.NumPresets
 	p.Peers = []int{3, 4, 2, 4, 1, 3, 4, 2}[mod(k+int(seed), 8)]
 	p.SmallCache = r.Intn(4) == 0
+	if k == 6 {
+		p.Skew, p.Peers = true, 6
+	}
 	if k%4 == 3 {
 		p.Mode = "per-peer"
 		if p.Peers < 2 {
@@ -117,6 +126,18 @@ func MakePlan(seed int64, k int) Plan {
 		return c
 	}
 	one := func(c CallPlan) { p.Groups = append(p.Groups, Group{Calls: []CallPlan{c}}) }
+	if p.Skew {
+		// Under the moved clock every answer with the requested header is
+		// rejected (also the true one), so the calls are few and short: what
+		// matters is that a forged body is not returned or cached.
+		for _, kd := range []Kind{[]Kind{KMutValue, KMutScript}[r.Intn(2)], []Kind{KRemoveTx, KAddTx, KReorder}[r.Intn(3)]} {
+			c := call(Sel{At: "rand", Wit: 2, MinTx: 3}, "clock moved back by the peers: forged body under the requested header", Step{K: kd})
+			c.Retries = 2
+			one(c)
+		}
+		p.NoHonest = true
+		return p
+	}
 	slot := 0
 	nextBan := func() Kind {
 		kd := BanKinds[mod(k*4+slot+int(seed), len(BanKinds))]
